@@ -432,7 +432,11 @@ class MementoFunction(MementoFunctionBase):
                 self.qualified_name_without_version
             ]
             if entry.as_of_generation == MementoFunction._global_fn_generation:
-                changed_rules = [rule for rule in self._hash_rules if rule.did_change()]
+                changed_rules = [
+                    rule
+                    for rule in self._hash_rules
+                    if rule.did_change() or any(r.did_change() for r in rule.alternates)
+                ]
                 if len(changed_rules) > 0:
                     # Global variables or local functions may have changed since the last time
                     # this function was run - check that they haven't before assuming we
